@@ -23,6 +23,8 @@ void splinetable<Alloc>::fit(const ::ndsparse& data,
 	              "DoubleContCont must be a container of DoubleCont values");
 	
 	//Sanity checking
+	if(data.ndim==0 || data.rows==0)
+		throw std::logic_error("Cannot fit to an empty data set");
 	if(data.rows!=weights.size())
 		throw std::logic_error("Number of weights ("
 		                       +std::to_string(weights.size())
@@ -47,6 +49,14 @@ void splinetable<Alloc>::fit(const ::ndsparse& data,
 		                       +std::to_string(splineOrder.size())
 		                       +") does not equal dimension of input data ("
 		                       +std::to_string(data.ndim)+")");
+	for(uint32_t i=0; i<data.ndim; i++){
+		if(coords[i].size()<data.ranges[i])
+			throw std::logic_error("Coordinate vector for dimension "
+			                       +std::to_string(i)+" has fewer entries ("
+			                       +std::to_string(coords[i].size())
+			                       +") than the range of coordinate indices ("
+			                       +std::to_string(data.ranges[i])+")");
+	}
 	if(knots.size()!=data.ndim)
 		throw std::logic_error("Number of knot vectors ("
 		                       +std::to_string(knots.size())
@@ -57,6 +67,13 @@ void splinetable<Alloc>::fit(const ::ndsparse& data,
 			throw std::logic_error("Knot vector for dimension "
 			                       +std::to_string(i)+
 			                       " is not in sorted order");
+		//a spline of order n needs at least n+1 fully supported basis functions
+		if(knots[i].size()<2*uint64_t(splineOrder[i])+2)
+			throw std::logic_error("Knot vector for dimension "
+			                       +std::to_string(i)+" has too few entries ("
+			                       +std::to_string(knots[i].size())
+			                       +") for a spline of order "
+			                       +std::to_string(splineOrder[i]));
 	}
 	if(smoothing.size()!=data.ndim && smoothing.size()!=1)
 		throw std::logic_error("Number of smoothing strengths specified ("
@@ -68,6 +85,14 @@ void splinetable<Alloc>::fit(const ::ndsparse& data,
 		                       +std::to_string(penaltyOrder.size())
 		                       +") should be 1 or the number of spline dimensions ("
 		                       +std::to_string(data.ndim)+")");
+	for(uint32_t i=0; i<data.ndim; i++){
+		uint32_t pOrder=(penaltyOrder.size()>1?penaltyOrder[i]:penaltyOrder[0]);
+		if(pOrder>splineOrder[i])
+			throw std::logic_error("Penalty order ("+std::to_string(pOrder)
+			                       +") for dimension "+std::to_string(i)
+			                       +" exceeds the spline order ("
+			                       +std::to_string(splineOrder[i])+")");
+	}
 	if(monodim!=no_monodim && monodim>=data.ndim)
 		throw std::logic_error("Requested monotonic dimension ("
 		                       +std::to_string(monodim)
